@@ -507,6 +507,57 @@ def r9(ctx, facts):
         raise AnchorLost("no by-name deserializer of the family found")
 
 
+ALLOW_MISSING = {
+    "UdtStrict": {"c"},
+    "UdtOrderedDefaults": {"b"},
+    "UdtAllowMissingFirst": {"a", "c"},
+}
+
+
+def r10(ctx, facts):
+    r = ctx.rule("R10", "ordered UDT type_check: when the UDT's field list ends at a REQUIRED field the type is refused (only allow_missing fields may be absent)", floor=5)
+    from ..util import dj_of
+    n = 0
+    for name, (kind, flavor, fields, derives) in sorted(FAMILY.items()):
+        if kind != "udt" or "d" not in derives or not flavor.startswith("order"):
+            continue
+        b = find_body(facts, r"^<derive_family::%s as scylla_cql_core::deserialize::value::DeserializeValue<'lifetime, 'lifetime_>>::type_check$" % name)
+        dj = dj_of(b, facts)
+        order = rpo_index(b)
+        # one "fetch the next UDT field" per Rust field, in declaration order: `saved.take().or_else(|| iter.next())` or a bare next()
+        fetch = sorted([c for bb, c in b.calls() if bb in b.live_blocks and (c.name or c.decl or "").endswith(("Option::<T>::or_else", "Iterator::next"))
+                        and "Option" in b.local_ty(c.dest[0]) and not c.dest[1]], key=lambda c: order.get(c.bb, 1 << 30))
+        # keep the outermost fetch per field: an or_else whose closure calls next() shows only the or_else here (the closure is a separate body)
+        live_fields = [(f, cql) for f, cql, ty in fields if cql is not None]
+        if len(fetch) != len(live_fields):
+            raise AnchorLost("%s::type_check: %d field fetches for %d fields" % (name, len(fetch), len(live_fields)))
+        oks = [bb for bb in b.live_blocks for st in b.stmts(bb) if st[0] == "A" and st[1][0] == 0 and not st[1][1] and st[2][0] == "agg" and st[2][1][0] == "adt" and st[2][1][2] == "Ok"]
+        for (f, cql), c in zip(live_fields, fetch):
+            n += 1
+            none_edges = []
+            for u in sorted(b.live_blocks):
+                if b.term(u)[0] != "switch":
+                    continue
+                for v in b.succ[u]:
+                    sts = dj.states_on_edge(u, v)
+                    if sts and all(in_set(st.get(("disc", (c.dest[0], ()))), {0}) for st in sts):
+                        before = dj.states_before_stmt(u, len(b.stmts(u)))
+                        if not (before and all(in_set(st.get(("disc", (c.dest[0], ()))), {0}) for st in before)):
+                            none_edges.append((u, v))
+            if not none_edges:
+                r.fail("end-of-udt:%s:%s" % (name, f), "the branch on `no more UDT fields` for field %s was not found" % f, c.span)
+                continue
+            reach_ok = any(x in dj.feasible_reach_edge(u, v) for (u, v) in none_edges for x in oks)
+            if cql in ALLOW_MISSING.get(name, set()):
+                r.instance("end-of-udt:%s:%s" % (name, f), True, "allow_missing field: may be absent", c.span, nontrivial=False)
+            else:
+                r.instance("end-of-udt:%s:%s" % (name, f), not reach_ok,
+                           "type_check can answer Ok although the UDT has no field left for the required field %s (an earlier allow_missing field that IS present uses up the field count "
+                           "pre-check): deserialize then hits its `type check should have prevented this` panic" % f, c.span)
+    if n == 0:
+        raise AnchorLost("no ordered UDT type_check in the family")
+
+
 def switch_edges_(b, sw):
     t = b.term(sw)
     return {int(v): tg for v, tg in t[2]}, t[3]
@@ -519,7 +570,7 @@ def check(ctx):
         sers = r1(ctx, facts)
     except AnchorLost as ex:
         ctx.rule("R1x", "anchors").fail("anchor-lost", str(ex))
-    for fn in ((lambda c, f: r2(c, f, sers)), r3, r4, r5, r6, r7, r8, r9):
+    for fn in ((lambda c, f: r2(c, f, sers)), r3, r4, r5, r6, r7, r8, r9, r10):
         try:
             fn(ctx, facts)
         except AnchorLost as ex:
